@@ -77,6 +77,8 @@ def cases(draw):
         "retries": draw(st.sampled_from([0, 1, 3, None])),
         "interval": interval,
         "kill_after": draw(st.sampled_from([None, None, None, 2, 5, 45, 90])),
+        # how long the submission call itself takes, per execution (the notification may arrive inside it)
+        "submit_delays": [draw(st.sampled_from([0, 0, 0, 1.5, 4.0])) for _ in range(draw(st.integers(0, 4)))],
         "check_output": draw(st.sampled_from([None, True, False])),
     }
 
